@@ -263,7 +263,7 @@ theorem cmds_eq_go (rels : RelList) (index : Nat) (nodes : List Node) (stop : Bo
 /-- `cmds.go` from a single well-formed relation is `computeList` (run to completion iff not
     `stop`); on an exit it returns the relation accumulated BEFORE the exiting statement -/
 theorem go_computeList (stop : Bool) (l : List Node) :
-    ∀ (cs : List Cmd), desugarL l = some cs → namesOkAL l = true → castOkAL l = true →
+    ∀ (cs : List Cmd), desugarL l = some cs → namesOkAL l = true →
     guardsFreshL cs = true →
     ∀ (ra : Relation) (idx : Nat) (dg : DG.Graph) (sk : List String)
       (res : Bool × Nat × RelList × List String), ra.WF →
@@ -273,12 +273,12 @@ theorem go_computeList (stop : Bool) (l : List Node) :
         ∃ r0, res.2.2.1 = [r0] ∧ r0.WF ∧ ∀ v ∈ ra.vars, v ∈ r0.vars := by
   induction l with
   | nil =>
-    intro cs _ _ _ _ ra idx dg sk res hra h
+    intro cs _ _ _ ra idx dg sk res hra h
     rw [cmds.go] at h
     cases h
     exact ⟨⟨idx, [ra], false, dg, sk⟩, by rw [computeList]; rfl, rfl, rfl, fun _ => rfl, ra, rfl, hra, fun v hv => hv⟩
   | cons n ns ih =>
-    intro cs hd hn hc hg ra idx dg sk res hra h
+    intro cs hd hn hg ra idx dg sk res hra h
     rw [desugarL] at hd
     cases hdn : desugar n with
     | none => simp [hdn] at hd
@@ -288,7 +288,7 @@ theorem go_computeList (stop : Bool) (l : List Node) :
       | some cs' =>
         simp only [hdn, hdl, Option.some.injEq] at hd
         subst hd
-        simp only [namesOkAL, castOkAL, guardsFreshL, Bool.and_eq_true] at hn hc hg
+        simp only [namesOkAL, guardsFreshL, Bool.and_eq_true] at hn hg
         rw [cmds.go] at h
         rw [computeList]
         cases ho1 : compute (!stop) idx dg n with
@@ -296,7 +296,7 @@ theorem go_computeList (stop : Bool) (l : List Node) :
         | ok o1 =>
           rw [ho1] at h
           simp only [bind, Except.bind] at h ⊢
-          have R1 := compute_refG_aux (sizeOf n + 1) n (Nat.lt_succ_self _) cmd hdn hn.1 hc.1 hg.1
+          have R1 := compute_refG_aux (sizeOf n + 1) n (Nat.lt_succ_self _) cmd hdn hn.1 hg.1
             (!stop) idx dg o1 ho1
           cases he : o1.exit with
           | true =>
@@ -318,7 +318,7 @@ theorem go_computeList (stop : Bool) (l : List Node) :
             rw [hacc] at h ⊢
             have wacc := Relation.composition_wf ra r1 hra w1
             obtain ⟨out, e1, e2, e3, e4, r0, e5, e6, e7⟩ :=
-              ih cs' hdl hn.2 hc.2 hg.2 (Relation.composition ra r1) o1.index o1.dg (sk ++ o1.skipped) res wacc h
+              ih cs' hdl hn.2 hg.2 (Relation.composition ra r1) o1.index o1.dg (sk ++ o1.skipped) res wacc h
             refine ⟨out, e1, e2, e3, e4, r0, e5, e6, ?_⟩
             intro v hv
             exact e7 v ((Relation.composition_vars_mem ra r1 hra w1 v).2 (Or.inl hv))
